@@ -26,6 +26,11 @@ class BadRepr:
 class Unpicklable:
     def __reduce__(self): raise TypeError("no pickle")
     def __repr__(self): return "<Unpicklable>"
+def _refuse_to_load(): raise ValueError("this object pickles but cannot be loaded back")
+class Unloadable:
+    """dumps accepts it, loads rejects it (e.g. an object whose class needs constructor arguments pickle does not know)"""
+    def __reduce__(self): return (_refuse_to_load, ())
+    def __repr__(self): return "<Unloadable>"
 
 def alphabet():
     def local_cls():
@@ -36,7 +41,7 @@ def alphabet():
                'CustomInit': lambda *a: CustomInit(*(a[:2] or (1,))), 'KwOnly': lambda *a: KwOnlyInit(code=a[0] if a else 0), 'MyBase': lambda *a: MyBase(*a), 'KeyError': lambda *a: KeyError(*a),
                'FromResponse': lambda *a: FromResponse(type('Resp', (), {'status': a[0] if a else 0})())}
     args = {'none': (), 'str': ('boom',), 'mixed': (1, 'x', None, 2.5, True), 'nested': ([1, {'k': [2]}],), 'bytes': (b'\xff\x00',), 'set': ({1, 2},), 'callable': (len,), 'badrepr': (BadRepr(),),
-            'unpicklable': (Unpicklable(),), 'surrogate': ('\ud800',), 'inf': (float('inf'),), 'nan': (float('nan'),), 'intkey': ({1: 2},), 'tuple': ((1, 2),), 'big': (2 ** 80,)}
+            'unpicklable': (Unpicklable(),), 'unloadable': (Unloadable(),), 'surrogate': ('\ud800',), 'inf': (float('inf'),), 'nan': (float('nan'),), 'intkey': ({1: 2},), 'tuple': ((1, 2),), 'big': (2 ** 80,)}
     return classes, args
 
 def eq_args(a, b):
